@@ -5,6 +5,7 @@ import (
 	"go/token"
 	"go/types"
 	"sort"
+	"strconv"
 	"strings"
 
 	"golang.org/x/tools/go/ssa"
@@ -137,6 +138,11 @@ func (env *specEnv) lvalue(x SExpr) []frameItem {
 			return items
 		}
 		if id, ok := x.Fn.(*SIdent); ok && id.Name == "deref" {
+			if lit, isLit := x.Args[1].(*SLit); isLit && lit.Kind == "string" {
+				if name, err := strconv.Unquote(lit.Val); err == nil && e.W.parseTypeName(name) == nil {
+					return nil // a type that is not loaded: no pointer to it can be passed
+				}
+			}
 			return e.locItems(env.derefLoc(x), src)
 		}
 		if id, ok := x.Fn.(*SIdent); ok && id.Name == "allof" {
@@ -752,7 +758,16 @@ func (e *Enc) applyContract(fc *FuncContract, key, site string, sig *types.Signa
 	}
 	for i, n := range resultNames(fc, sig) {
 		t := sig.Results().At(i).Type()
-		penv.vars[n] = SV{T: results[i].T, Sort: e.sortOf(t), GT: t}
+		sv := SV{T: results[i].T, Sort: e.sortOf(t), GT: t}
+		penv.vars[n] = sv
+		// positional names are always available: result (first), result1, result2, …
+		if i == 0 {
+			if _, taken := penv.vars["result"]; !taken {
+				penv.vars["result"] = sv
+			}
+		} else if _, taken := penv.vars[fmt.Sprintf("result%d", i)]; !taken {
+			penv.vars[fmt.Sprintf("result%d", i)] = sv
+		}
 	}
 	for _, cl := range ensures {
 		penv.calleeGhosts = fc.Ghosts
